@@ -87,3 +87,6 @@ def register(reg):
     reg.add_exception('WrongVersion', ('Exception',))
     reg.add_exception('OnErrorLeaf', ('Exception',))
     reg.add_exception('InvalidPythonEnvironment', ('Exception',))
+    from pyvc.values import MCls
+    reg.names['pickle'] = MNS('pickle', {'UnpicklingError': MCls('UnpicklingError'),
+                                         'PicklingError': MCls('PicklingError')})
